@@ -23,7 +23,9 @@ LEVEL = 'exploration'
 STEP_UNIT = 'call-back invocations (conditions, branch markers, references)'
 CASE_TIMEOUT = 300
 TIERS = {'quick': (24000, 170), 'thorough': (1200000, 2400)}
-PROBES = ['attribute_defined_by_side_effect_then_retested',
+PROBES = ['computed_mapping_key_tested', 'seqobj_condition_value',
+          'sub_template_called_with_client_path',
+          'attribute_defined_by_side_effect_then_retested',
           'resumed_after_caught_fault', 'chain_len_ge3', 'first_true_not_first', 'else_taken',
           'nothing_rendered', 'cached_value_reused_in_body',
           'reuse_at_depth_ge2', 'reuse_inside_loop', 'reuse_in_sub_template',
@@ -89,8 +91,12 @@ class Gen:
             x = r.random()
             if x < 0.25:
                 answers.append({'tok': s})
-            elif x < 0.40:
+            elif x < 0.33:
                 answers.append({'boolobj': s, 'truth': r.random() < 0.5})
+            elif x < 0.40:
+                # sequence-like value whose truth is its own business
+                answers.append({'seqobj': s, 'truth': r.random() < 0.5,
+                                'len': r.choice([0, 0, 2])})
             elif x < 0.7:
                 answers.append(r.choice(TRUTHY))
             else:
@@ -117,7 +123,7 @@ class Gen:
         kinds = ['text', 'ref', 'ref', 'ref', 'call']
         if depth < self.maxdepth and self.nodes < 40:
             kinds += ['if', 'if', 'if', 'unless', 'wrap', 'shadow', 'sub',
-                      'try', 'wobj']
+                      'try', 'wobj', 'wmap']
         kinds = [k for k in kinds if k in self.swarm or k in ('text', 'ref')]
         return getattr(self, 'n_' + r.choice(kinds))(depth)
 
@@ -266,6 +272,43 @@ class Gen:
         return {'k': 'with', 'src': {'site': w, 'how': 'name'},
                 'objattrs': [attr], 'body': b}
 
+    def n_wmap(self, depth):
+        """a mapping namespace that computes the value of one key on every
+        access: testing that name in a conditional is one evaluation"""
+        r = self.r
+        self.nw += 1
+        w, key = 'WM%d' % self.nw, 'UM%d' % self.nw
+        site = '%s.%s' % (w, key)
+        self.script[w] = {'map': {}, 'computed': [key]}
+        self.script[site] = {'rot': [r.choice(TRUTHY + [{'tok': site}]),
+                                     r.choice(FALSY),
+                                     r.choice(TRUTHY + FALSY)]}
+        c = {'site': key, 'how': 'name'}
+
+        def ref_body():
+            b = self.body(depth + 2)
+            if r.random() < 0.7:    # reference inside the body: cached
+                b['n'].append({'k': 'var', 'site': key, 'how': 'name'})
+            return b
+        nodes = []
+        for _ in range(r.choice([1, 2, 2])):
+            x = r.random()
+            if x < 0.5:
+                nodes.append({'k': 'if', 'conds': [{'c': c,
+                                                    'body': ref_body()}],
+                              'else': ref_body() if r.random() < 0.5
+                              else None})
+            elif x < 0.75:
+                nodes.append({'k': 'unless', 'c': c, 'body': ref_body()})
+            else:
+                nodes.append({'k': 'if', 'conds': [
+                    {'c': self.cond(), 'body': self.body(depth + 2)},
+                    {'c': c, 'body': ref_body()}], 'else': None})
+        b = self.body(depth + 1)
+        b['n'] = b['n'][:1] + nodes + b['n'][1:]
+        return {'k': 'with', 'src': {'site': w, 'how': 'name'},
+                'mapping': True, 'mapkeys': [key], 'body': b}
+
     def n_try(self, depth):
         b = self.body(depth + 1, minn=1)
         if not any(n['k'] in ('if', 'unless') for n in b['n']):
@@ -280,8 +323,9 @@ class Gen:
     def n_sub(self, depth):
         r = self.r
         done = sorted(k for k, v in self.subs.items() if v)
+        how = r.choice(['var', 'var', 'kw', 'client', 'clients2'])
         if done and (len(self.subs) >= 2 or r.random() < 0.4):
-            return {'k': 'sub', 'name': r.choice(done)}
+            return {'k': 'sub', 'name': r.choice(done), 'how': how}
         if len(self.subs) >= 2:
             return self.n_ref(depth)
         name = 'T%d' % (len(self.subs) + 1)
@@ -291,10 +335,11 @@ class Gen:
         b = self.body(max(depth + 1, self.maxdepth - 1), minn=1)
         self.swarm, self.enclosing = saved, savede
         self.subs[name] = {'body': b, 'defaults': r.choice([{}, {'dflt': 1}])}
-        return {'k': 'sub', 'name': name}
+        return {'k': 'sub', 'name': name, 'how': how}
 
 
-ALL_KINDS = ['call', 'if', 'unless', 'wrap', 'shadow', 'sub', 'try', 'wobj']
+ALL_KINDS = ['call', 'if', 'unless', 'wrap', 'shadow', 'sub', 'try', 'wobj',
+             'wmap']
 
 
 def gen_case(seed, tier):
@@ -384,16 +429,21 @@ class Model9(M.Model):
     def cond(self, c, cache):
         how = c.get('how', 'name')
         if how == 'name':
+            name = c['site']
+            if any(name in f for f in self.caches[:-1]):
+                self.hits.add('reuse_as_inner_condition')
             try:
-                self.raw(c['site'])
-            except KeyError:
+                v = self.lookup(name)
+            except KeyError as e:
+                if e.args[0] != name:
+                    raise
                 self.hits.add('undefined_name_false')
-            else:
-                if any(c['site'] in f for f in self.caches[:-1]):
-                    self.hits.add('reuse_as_inner_condition')
-        elif how in ('expr', 'call'):
+                return None
+            cache[name] = v
+            return v
+        if how in ('expr', 'call'):
             self.hits.add('expr_condition_not_cached')
-        return M.Model.cond(self, c, cache)
+        return self.ref(c)
 
     def n_if(self, n):
         cache = {}
@@ -454,7 +504,16 @@ class Model9(M.Model):
         v = M.Model.invoke(self, site)
         if _ATTR_SITE.match(site) and v is not E.UNDEF:
             self.hits.add('attribute_defined_by_side_effect_then_retested')
+        if site[:2] == 'WM' and '.' in site:
+            self.hits.add('computed_mapping_key_tested')
+        if isinstance(v, E.SeqObj):
+            self.hits.add('seqobj_condition_value')
         return v
+
+    def n_sub(self, n):
+        if n.get('how') == 'clients2':
+            self.hits.add('sub_template_called_with_client_path')
+        return M.Model.n_sub(self, n)
 
     def n_let(self, n):
         if n.get('shadow'):
